@@ -12,7 +12,7 @@ import numpy as np
 from engines import contracts
 from oracles import sphere
 from vlib import cats, gen
-from vlib.core import HELD, VIOLATED, Check, Scratch, result
+from vlib.core import case_bits, HELD, VIOLATED, Check, Scratch, result
 
 
 def check_catalog_meta(cat, bad, counters, tag):
@@ -124,9 +124,19 @@ class C12(Check):
         xyz, pid = xyz[order], pid[order]
         ra, dec = gen.xyz_to_radec(xyz)
         w = rng.uniform(0.1, 5, len(ra)) if case["weighted"] else None
+        if w is not None and case_bits(case, "zero-weights") % 3 == 0:
+            w[rng.random(len(w)) < 0.4] = 0.0  # masked objects keep their place in the patch geometry
+            for p_ in range(P):  # ... but no patch is masked completely (a zero-weight mean has no direction)
+                if w[pid == p_].sum() == 0:
+                    w[np.flatnonzero(pid == p_)[0]] = 1.0
         cobj = cats.coords_obj(centres)
         given = cobj.data.copy()
-        cat = cats.create(tmp / "c", cats.table(ra, dec, w=w), centers=cobj, chunksize=int(rng.choice([7, 50, 10**6])))
+        extra = {}
+        if case_bits(case, "index-column-too") % 3 == 0:
+            # a patch-index column given together with the centres is documented to be ignored
+            extra = dict(patch=rng.integers(0, P + 2, len(ra)), kw=dict(patch_name="patch"))
+        cat = cats.create(tmp / "c", cats.table(ra, dec, w=w, patch=extra.get("patch")), centers=cobj,
+                          chunksize=int(rng.choice([7, 50, 10**6])), **extra.get("kw", {}))
         # the caller goes on using (and modifying) its own centre array: the catalog must not change with it
         cobj.data += 0.25
         for tag, c in (("created", cat), ("reopened", Catalog(tmp / "c", max_workers=1))):
